@@ -86,6 +86,21 @@ def _sqlite_remainder_expr(dbmodel, expression):
     )
 
 
+def _sqlite_int_divide_expr(dbmodel, expression):
+    """
+    Return SQL floor division.
+    """
+
+    e0 = dbmodel.expr_to_sql(expression.args[0], want_inline_parens=True)
+    e1 = dbmodel.expr_to_sql(expression.args[1], want_inline_parens=True)
+    # integers stay integers and exact (the floored remainder is taken off first); everything else divides as floats
+    return (
+        f"(CASE WHEN (typeof({e0}) = 'integer') AND (typeof({e1}) = 'integer')"
+        f" THEN (({e0} - ((({e0} % {e1}) + {e1}) % {e1})) / {e1})"
+        f" ELSE FLOOR({e0} / (1.0 * {e1})) END)"
+    )
+
+
 def _sqlite_logical_or_expr(dbmodel, expression):
     """
     Return SQL or.
@@ -114,6 +129,7 @@ SQLite_formatters = {
     "remainder": _sqlite_remainder_expr,
     "%": _sqlite_remainder_expr,
     "mod": _sqlite_remainder_expr,
+    "//": _sqlite_int_divide_expr,
     "logical_or": _sqlite_logical_or_expr,
     "logical_and": _sqlite_logical_and_expr,
 }
@@ -208,6 +224,21 @@ def _floor_fn(x):
 
 def _ceil_fn(x):
     return math.ceil(x) if isinstance(x, int) else float(math.ceil(x))
+
+
+def _round_fn(x):
+    # numpy.round on a column: halves go to the even neighbour, an integer stays an integer, +-inf stays
+    if (x is None) or isinstance(x, int):
+        return x
+    try:
+        x = float(x)
+    except (TypeError, ValueError):
+        return None
+    if math.isnan(x):
+        return None
+    if math.isinf(x):
+        return x
+    return float(round(x))
 
 
 def _wrap_scalar_fn2(f, x, y):
@@ -435,7 +466,7 @@ class SQLiteModel(data_algebra.db_model.DBModel):
             "log10": functools.partial(_wrap_numpy_fn, numpy.log10),
             # replaces the built-in one argument ROUND, which rounds halves away from zero (and 0.49999999999999994 up):
             # numpy, Pandas and Polars round halves to even
-            "round": functools.partial(_wrap_numpy_fn, numpy.round),
+            "round": _round_fn,
             "log1p": functools.partial(_wrap_numpy_fn, numpy.log1p),
             "sin": functools.partial(_wrap_numpy_fn, numpy.sin),
             "sinh": functools.partial(_wrap_numpy_fn, numpy.sinh),
